@@ -293,7 +293,13 @@ structure CreateEffect (t t' : T) (parent : Option Deme) (seed : Option Ind) : P
   pc : t'.pc = t.pc
   gscSeen : t'.gscSeen = t.gscSeen
   refusedMono : t.refused = true → t'.refused = true
+  levels : t'.levels = t.levels.set (match parent with | some p => p.level + 1 | none => 0)
+    (t.levels.getD (match parent with | some p => p.level + 1 | none => 0) [] ++
+      [match parent with | some p => nextChildId t p | none => []])
   demes : ∃ old d, t'.demes = old ++ [d] ∧ List.Forall₂ SameBC t.demes old ∧
+    old = (match parent with
+      | some p => updFirst p.id (fun x => { x with children := x.children ++ [nextChildId t p] }) t.demes
+      | none => t.demes) ∧ d.children = [] ∧
     d.level = (match parent with | some p => p.level + 1 | none => 0) ∧
     d.id = (match parent with | some p => nextChildId t p | none => []) ∧
     d.active = true ∧ d.hib = false ∧ d.startedAt = t.metaepoch ∧ d.seed = seed ∧
@@ -329,11 +335,16 @@ theorem createDeme_effect {t t' : T} {parent : Option Deme} {seed : Option Ind} 
         subst h
         have e := evalReqs_effect hev
         obtain ⟨invs, hlog, hn, hp, hr⟩ := e.log
-        refine ⟨e.cfg, e.metaepoch, e.pc, e.gscSeen, e.refusedMono, ?_⟩
         have hd1 : t1.demes = t.demes := by
           have := e.demes; simpa [updFirst_bump_zero] using this
-        refine ⟨_, _, rfl, ?_, rfl, rfl, rfl, rfl, rfl, rfl, rfl, ⟨lc, hlc⟩, invs, hlog, ?_, ?_, ?_⟩
-        · cases parent with
+        refine ⟨e.cfg, e.metaepoch, e.pc, e.gscSeen, e.refusedMono, by simp only [e.levels]; cases parent <;> rfl, ?_⟩
+        refine ⟨_, _, rfl, ?sbc, ?oldeq, rfl, rfl, rfl, rfl, rfl, rfl, rfl, rfl, ⟨lc, hlc⟩, invs, hlog, ?_, ?_, ?_⟩
+        case oldeq =>
+          cases parent with
+          | none => simp only [hd1]
+          | some p => simp only [hd1]
+        case sbc =>
+          cases parent with
           | none => simp only [hd1]; exact forall2_sameBC_refl _
           | some p => simp only [hd1]; exact addChild_forall2 _ _ _
         · by_cases hl : lc.engine = .localOpt
